@@ -14,6 +14,7 @@ os.environ["MIRSYM_RECORD_BOUNDARY"] = "1"
 
 import engine  # noqa: E402
 import kernels  # noqa: E402
+import kernels2  # noqa: E402
 import mir  # noqa: E402
 import sym  # noqa: E402
 from common import CACHE, RSASS  # noqa: E402
@@ -24,11 +25,11 @@ def main():
     mir.dump(RSASS, os.path.join(CACHE, "mir", "target"), path)
     E = engine.Engine(path, os.path.join(RSASS, "src"))
     os.unlink(path)
-    for k in sorted(n for n in dir(kernels) if n.startswith("k_")):
+    for k in sorted(n for n in set(dir(kernels)) | set(dir(kernels2)) if n.startswith("k_")):
         sym.CURRENT_KERNEL = k
         sym.SEEN_OPAQUE.setdefault(k, set())
         try:
-            getattr(kernels, k)(E, "quick")
+            (getattr(kernels, k, None) or getattr(kernels2, k))(E, "quick")
         except sym.Unsupported as e:
             print("unsupported on this tree:", k, str(e)[:100])
     E.close()
